@@ -57,6 +57,11 @@ def build(case: dict[str, Any]) -> tuple[dict[str, Any], AffineEvaluator, OptMod
     }
     if case.get("max_functions") is not None:
         cfg["optimizer"]["max_functions"] = case["max_functions"]
+    if case.get("redirect"):  # the optimizer's output is redirected to a file (the redirection is suspended during evaluations)
+        import tempfile
+
+        case["_stdout"] = tempfile.NamedTemporaryFile(prefix="c14-out-", suffix=".txt", delete=False).name  # noqa: SIM115
+        cfg["optimizer"]["stdout"] = case["_stdout"]
     if case.get("filter"):
         cfg["realization_filters"] = [case["filter"]]
         if case["filter"]["method"].endswith("objective"):
@@ -86,7 +91,8 @@ def build(case: dict[str, Any]) -> tuple[dict[str, Any], AffineEvaluator, OptMod
         def hook(call: int, variables: np.ndarray, context: Any) -> None:  # noqa: ANN401, ARG001
             if call == case["raise_at"]:
                 msg = f"injected evaluator error {call}"
-                raise (ValueError if case.get("raise_type", "ValueError") == "ValueError" else InjectedError)(msg)
+                raise {"ValueError": ValueError, "FileNotFoundError": FileNotFoundError, "TimeoutError": TimeoutError}.get(
+                    case.get("raise_type", "ValueError"), InjectedError)(msg)
         ev.hook = hook
     return cfg, ev, transforms
 
@@ -113,6 +119,13 @@ def run(case: dict[str, Any]) -> dict[str, Any]:
             raise
         out["code"] = None
         out["exc"] = exc
+    finally:
+        if case.get("_stdout"):
+            import os
+
+            if os.path.exists(case["_stdout"]):
+                os.unlink(case["_stdout"])
+            case.pop("_stdout", None)
     return out
 
 
@@ -287,11 +300,14 @@ def run_budget_case(case: dict[str, Any]) -> dict[str, Any]:
 def run_raise_case(case: dict[str, Any]) -> dict[str, Any]:
     base = run({**case, "raise_at": None})
     n = len(base["ev"].calls)
-    for k, rtype in itertools.product(range(n), ("ValueError", "custom")):
-        sub = {**case, "raise_at": k, "raise_type": rtype}
+    for k, rtype, redirect in itertools.product(range(n), ("ValueError", "custom", "FileNotFoundError", "TimeoutError"), (False, True)):
+        sub = {**case, "raise_at": k, "raise_type": rtype, "redirect": redirect}
         out = run(sub)
         check(out["exc"] is not None, "evaluator-exception-swallowed",
               f"the evaluator raised {rtype} at call {k} but run_step returned {out['code']!r}", sub)
+        if rtype in ("FileNotFoundError", "TimeoutError"):
+            check(type(out["exc"]).__name__ == rtype and str(out["exc"]) == f"injected evaluator error {k}", "evaluator-exception-changed",
+                  f"the evaluator's {rtype} arrived as {type(out['exc']).__name__}: {out['exc']}", sub)
         if rtype == "custom":  # (SciPy itself re-raises TypeError/ValueError of the objective as RuntimeError, chained)
             check(isinstance(out["exc"], InjectedError) and str(out["exc"]) == f"injected evaluator error {k}", "evaluator-exception-changed",
                   f"the evaluator's exception arrived as {type(out['exc']).__name__}: {out['exc']}", sub)
